@@ -1,4 +1,4 @@
-import PoaVerif.Model.Chain
+import PoaVerif.Model.Trig
 /-
   Line-protocol driver: reads operation lines (Tie B protocol, DESIGN.md appendix A) on stdin,
   runs the model, prints canonical observation lines on stdout.
@@ -136,12 +136,36 @@ def observe (s : App) : List String :=
     match s.getVal op with
     | some _ => s!" {op}:{s.lastPower op}"
     | none => s!" {op}:err"))
-  vals ++ [tot, idx, ubq, pend, updc, pool, par] ++ sigs ++ [qry]
+  vals ++ [tot, idx, ubq, pend, updc, pool, par] ++ sigs ++ ["AUTH 1", qry]
 
 def txrStr : TxR → String
   | .ok => "ok" | .err e => errStr e | .unknown => "?"
 
 def theEnv : Env := { ante := defaultAnteFacts, limiter := simappLimiter }
+
+def trigName : TrigId → String
+  | .D1 => "D1" | .D2 => "D2" | .D3 => "D3" | .D4 => "D4" | .D5 => "D5" | .D6 => "D6" | .D7 => "D7"
+  | .D8 => "D8" | .D9a => "D9a" | .D9b => "D9b"
+
+/-- re-run the block's transactions, reporting the triggers met by the successful ones -/
+def trigLines (env : Env) (s0 : App) (b : Block) : List String := Id.run do
+  let s1 := { s0 with height := s0.height + 1, time := s0.time + b.dt }
+  let s2 := match App.slashingBegin b.votes s1 with | .ok s => s | .error _ => s1
+  let mut s := match s2.poaBegin with | .ok s => s | .error _ => s2
+  let mut incs : List (Signer × Nat) := []
+  let mut res : List String := []
+  let mut i := 0
+  for tx in b.txs do
+    let pre := s
+    let r := App.runTx env s incs tx
+    s := r.2.1
+    incs := r.2.2
+    if r.1 == TxR.ok then
+      let t := (Trig.ofList pre tx.signer tx.msgs).1.eraseDups
+      if !t.isEmpty then
+        res := res ++ [s!"TRIG {i}" ++ String.join (t.map (fun x => " " ++ trigName x))]
+    i := i + 1
+  return res
 
 def out (l : String) : P Unit := do
   (IO.println l : IO Unit)
@@ -159,6 +183,7 @@ partial def runBlocks (s : App) (set : CSet) (halted : Bool) : P Unit := do
       match App.block theEnv s b with
       | .error hk =>
         out s!"H {h}"
+        for t in trigLines theEnv s b do out t
         out (match hk with | .panic => "HALT panic" | .error => "HALT error")
         runBlocks s set true
       | .ok (bo, s') =>
@@ -167,6 +192,7 @@ partial def runBlocks (s : App) (set : CSet) (halted : Bool) : P Unit := do
         for r in bo.txrs do
           out s!"TXR {i} {txrStr r}"
           i := i + 1
+        for t in trigLines theEnv s b do out t
         out ("UPD" ++ pairs bo.updates)
         match Comet.applyChangeSet set bo.updates with
         | .error ce =>
